@@ -209,7 +209,10 @@ class CFG:
                                 st[(l, 0)] = ("bool", (ops[0]["k"].get("u") or 0) & 1)
                     elif k == "use" and Operand(rv["a"]).is_const and (rv["a"].get("k") or {}).get("ty") == "bool":
                         st.pop((l, 0), None)
-                        st[l] = ("bool", (rv["a"]["k"].get("u") or 0) & 1)
+                        if any("cfg" in str(x_) for x_ in (s.x or [])):
+                            st.pop(l, None)      # cfg!(..): a fact about this build configuration, not about the code
+                        else:
+                            st[l] = ("bool", (rv["a"]["k"].get("u") or 0) & 1)
                     elif k == "un" and rv.get("op") == "Not" and Operand(rv["a"]).place is not None and Operand(rv["a"]).place.is_local \
                             and st.get(Operand(rv["a"]).place.local, (None,))[0] == "bool":
                         st.pop((l, 0), None)
